@@ -108,12 +108,14 @@ def order(ctx, rule="C13.set-order"):
     calls = [n for n in walk_no_nested(e.node) if isinstance(n, ast.Call) and dotted(n.func) == "reshape_samples"]
     ctx.require(calls, "LocalEngine._run_program no longer calls reshape_samples")
     callee = ctx.tree.func(T, "reshape_samples")
-    want = {"samples_dict": "samples_dict", "modes": "measured_modes", "N": "N", "timebins": "timebins"}
+    want = {"modes": "measured_modes", "N": "N", "timebins": "timebins"}
     c = calls[0]
-    ok = len(c.args) == 4
-    for p, a in zip(callee.pos_params, c.args):
+    ok = len(c.args) + len(c.keywords) == 4
+    for p, a in list(zip(callee.pos_params, c.args)) + [(k.arg, k.value) for k in c.keywords]:
         k = dotted(a) or ""
-        if k.split(".")[-1] != want.get(p):
+        if p in want and k.split(".")[-1] != want[p]:
+            ok = False
+        if p == callee.pos_params[0] and not isinstance(a, ast.Name):
             ok = False
     ctx.ob(rule, e.site, ok, "" if ok else "reshape_samples receives its arguments in the wrong order / from the wrong "
            "program attributes", role="reshape-args", line=c.lineno)
